@@ -375,6 +375,8 @@ func (p *Path) specIntrinsic(n string, args []Value) (Value, bool) {
 		return gofmtOf(args[0].(*Term)), true
 	case "specGofmtOK":
 		return gofmtOK(args[0].(*Term)), true
+	case "specIsOneComment":
+		return mkInRe(args[0].(*Term), reOneCommentTok), true
 	case "specOneToken":
 		lit := args[0].(*Term)
 		switch constStr(p, args[1], "token kind") {
